@@ -192,7 +192,17 @@ impl Property for C16 {
             .prop_map(|(proto, stakes, fanout, triples, swap_after_warmup)| Case { proto, stakes, fanout, triples, swap_after_warmup })
             .boxed()
     }
+    fn regressions(&self) -> Vec<Case> {
+        // cases with an empty stake vector stand for the node-level scenario (Rotor, then Turbine)
+        vec![
+            Case { proto: Proto::RotorDefault, stakes: vec![], fanout: 5, triples: vec![], swap_after_warmup: false },
+            Case { proto: Proto::Turbine, stakes: vec![], fanout: 2, triples: vec![], swap_after_warmup: false },
+        ]
+    }
     fn run(&self, case: &Case) -> Outcome {
+        if case.stakes.is_empty() {
+            return node_dissemination_check(7, case.fanout as usize, (case.proto == Proto::Turbine).then_some(2));
+        }
         let mut out = Outcome::default();
         let vinfos = infos(&case.stakes);
         let n = vinfos.len();
@@ -337,5 +347,83 @@ impl Property for C16 {
             out.violate(format!("C16/panic/{:?}/{}", case.proto, panic_msg(&p)), p);
         }
         out
+    }
+}
+
+/// Node-level clause: in a fault-free run of full nodes every shred a leader sends reaches every
+/// other validator exactly once (the node's own receive / forward path is part of the route).
+pub fn node_dissemination_check(seed: u64, n: usize, turbine: Option<usize>) -> Outcome {
+    use crate::fixtures::net::with_runtime;
+    use crate::fixtures::nsim::{Diss, Switch, advance, start_node};
+    use crate::fixtures::shreds::ShredParts;
+    use crate::engine::{panic_site, take_panics};
+
+    let r = catch(|| {
+        with_runtime(true, seed, async move {
+            let mut out = Outcome::default();
+            let stakes = vec![1u64; n];
+            let switch = Switch::new(Box::new(|_f, _t, _i, _c| Some(15)));
+            switch.record_shreds(true);
+            let diss = match turbine {
+                Some(f) => Diss::Turbine(f),
+                None => Diss::Rotor,
+            };
+            let nodes: Vec<_> = (0..n).map(|i| start_node(&switch, &stakes, i, diss)).collect();
+            advance(4_000).await;
+            let panics = take_panics();
+            if !panics.is_empty() {
+                let p = panics.join(" | ");
+                out.violate(format!("C16/node/panic/{}/{}", panic_site(&p), panic_msg(&p)), p);
+            }
+            let log = switch.take_shred_log();
+            // (slot, slice, shred) -> receipts per validator; only slots that are certainly complete
+            let mut receipts: BTreeMap<(u64, u64, u64), Vec<usize>> = BTreeMap::new();
+            let mut max_slot = 0;
+            for (_from, to, bytes) in &log {
+                if let Some(p) = ShredParts::parse(bytes) {
+                    max_slot = max_slot.max(p.slot);
+                    receipts.entry((p.slot, p.slice_index, p.shred_index)).or_insert_with(|| vec![0; n])[*to] += 1;
+                }
+            }
+            for ((slot, slice, idx), r) in &receipts {
+                if *slot + 2 > max_slot {
+                    continue; // may still be in flight
+                }
+                let leader = (*slot / 4 % n as u64) as usize;
+                for v in 0..n {
+                    if v == leader {
+                        continue;
+                    }
+                    out.checks += 1;
+                    if r[v] != 1 {
+                        let class = if r[v] == 0 { "not-reached" } else { "reached-more-than-once" };
+                        out.violate(
+                            format!("C16/node/delivery/{class}/{}", if turbine.is_some() { "Turbine" } else { "Rotor" }),
+                            format!("fault-free run of {n} full nodes: shred {idx} of slice {slice} of slot {slot} (leader {leader}) was delivered {} times to validator {v}; receipts per validator {r:?}", r[v]),
+                        );
+                        for nd in &nodes {
+                            nd.cancel.cancel();
+                            nd.task.abort();
+                        }
+                        return out;
+                    }
+                }
+            }
+            out.label(format!("node-scenario=fault-free-dissemination shreds={}", receipts.len() / 500 * 500));
+            out.nontrivial = receipts.len() > 100;
+            for nd in &nodes {
+                nd.cancel.cancel();
+                nd.task.abort();
+            }
+            out
+        })
+    });
+    match r {
+        Ok(o) => o,
+        Err(p) => {
+            let mut o = Outcome::default();
+            o.violate(format!("C16/node/panic/{}", panic_msg(&p)), p);
+            o
+        }
     }
 }
